@@ -156,4 +156,18 @@ def main(argv):
 
     if a.tier not in ('quick', 'thorough'):
         raise SystemExit('tier must be quick or thorough')
-    return runner.run_check(spec, a.tier, seed)
+    try:
+        return runner.run_check(spec, a.tier, seed)
+    except KeyboardInterrupt:
+        raise
+    except BaseException as e:      # noqa: B036
+        # the machinery itself failed (e.g. a seam the changed code no longer fits): never a
+        # verdict - no VIOLATION line, exit status 2
+        import traceback
+        last = traceback.format_exception_only(type(e), e)[-1].strip()
+        print(f'HARNESS-ERROR: {a.pid} {a.tier}: the check could not be run to completion: {last[:600]}')
+        try:
+            runner.close_all_pools()
+        except Exception:
+            pass
+        return 2
